@@ -321,8 +321,19 @@ fn emit_wrapped_loop_choice_body(
     } else {
         LooseEndNoFallback::None
     };
+    // As in the reference compiler, only a divert on the choice line itself ties up
+    // the loose end of a choice: after a `-> END`, a `->->` or a `~ return` on a line
+    // of its own, like after a divert to a knot there, the divert to the gather is
+    // still emitted.
+    let diverts_on_choice_line =
+        choice.body_divert_is_inline && matches!(choice.body.first(), Some(Node::Divert(_)));
+    let ending_nodes: &[Node] = if has_nested_choices || diverts_on_choice_line {
+        &branch_nodes
+    } else {
+        &[]
+    };
     if let Some(token) = loose_end_append_for_nodes(
-        &branch_nodes,
+        ending_nodes,
         has_nested_choices,
         config.continuation_path,
         None,
